@@ -5,11 +5,24 @@
 // (atom, interval) pairs as plain data: atoms are identified by val.AtomKey (never by Hash/Equals/String of
 // the library), intervals by two extended integers.
 //
+// A case may hold a second store of the same kind beside the primary one ("side", with its own limit, its own
+// teeing wrapper and its own model). Every step names the store it works on; the step `merge` merges the
+// other store into it (source handle: the other store's plain *TemporalStore or its teeing wrapper), the step
+// `merge-fresh` merges it into a new, empty store (with or without a limit) that is then swept like any
+// other store and thrown away. A store is never merged into itself.
+//
 // What is asserted (only what the statement of C13 says, see properties.jsonl):
 //   - point / range / scan answers are exactly the model's filter, each pair once;
 //   - Add: (true, nil) for a new pair, (false, nil) for an exact duplicate, an error when the atom already
 //     holds `limit` intervals; a duplicate offered AT the limit may get either answer (the statement does
 //     not order the two rules);
+//   - Merge is a sequence of insertions: when it returns nil the target holds exactly the union of its old
+//     pairs and the pairs of the source, each once (judged by a scan, the count and a sweep of point, range
+//     and membership queries); it must return an error when the union would give an atom more than `limit`
+//     intervals. Either answer is accepted when an atom reaches exactly its limit and the source also offers
+//     a pair the target holds already (a duplicate at the limit, see Add). The statement does not say how far
+//     a failing merge gets: after an error the target must hold its old pairs plus some of the offered ones,
+//     each once, no atom above its limit, and the model is re-read from a scan. The source must be unchanged;
 //   - Coalesce never changes the instants at which an atom holds (probed at every end point and its two
 //     neighbours, which decides equality of the two piecewise constant functions), and afterwards the finite
 //     intervals of one atom are pairwise separated by at least 2 ns.
@@ -21,7 +34,12 @@
 //   - range queries are only asked for non-empty ranges (a <= b): the meaning of an empty range is not defined;
 //   - through the teeing wrapper a pair held by both layers may be reported once or twice (the wrapper
 //     documents that it does not de-duplicate across layers), the count may be anything between the size of
-//     the union and the sum; Coalesce through the wrapper is judged on the output layer only.
+//     the union and the sum; Coalesce and Merge through the wrapper are judged on the output layer only (a
+//     pair of the base layer that a merge offers again is a new pair of the output layer);
+//   - an error of Merge is demanded only where the union exceeds the limit; which error it is, and which of
+//     the offered pairs a refused merge leaves behind, is not asserted;
+//   - WithMaxIntervalsPerAtom(0) is treated like the default of 1000 (code: no limit, field comment: default);
+//     no history comes near either.
 //
 // Input domain: time stamps are never math.MinInt64 / math.MaxInt64 (the interval tree uses them to encode
 // the unbounded ends); unbounded ends are given as the proper bound types.
@@ -67,41 +85,66 @@ type Iv struct {
 	Hi    int64 `json:"hi,omitempty"`
 }
 
-// Operation kinds.
+// Operation kinds. Every operation works on store S (0 = the primary store, 1 = the side store).
 const (
-	opAdd      = "add"      // Add(Atoms[A], Iv)            (AddEternal when Eternal)
-	opAt       = "at"       // GetFactsAt(query(P, Pat), T)
-	opDuring   = "during"   // GetFactsDuring(query(P, Pat), Iv)
-	opAll      = "all"      // GetAllFacts(query(P, Pat))
-	opScan     = "scan"     // GetAllFacts(Atom{}) – no predicate
-	opContains = "contains" // ContainsAt(Atoms[A], T)
-	opCount    = "count"    // EstimateFactCount()
-	opCoalesce = "coalesce" // Coalesce(Preds[P])
-	opSweep    = "sweep"    // point, range and membership queries at every end point of the model and its neighbours
+	opAdd      = "add"         // Add(Atoms[A], Iv)            (AddEternal when Eternal)
+	opAt       = "at"          // GetFactsAt(query(P, Pat), T)
+	opDuring   = "during"      // GetFactsDuring(query(P, Pat), Iv)
+	opAll      = "all"         // GetAllFacts(query(P, Pat))
+	opScan     = "scan"        // GetAllFacts(Atom{}) – no predicate
+	opContains = "contains"    // ContainsAt(Atoms[A], T)
+	opCount    = "count"       // EstimateFactCount()
+	opCoalesce = "coalesce"    // Coalesce(Preds[P])
+	opSweep    = "sweep"       // point, range and membership queries at every end point of the model and its neighbours
+	opMerge    = "merge"       // store S .Merge(the other store, handle Via)
+	opFresh    = "merge-fresh" // a new store (Limit, ZeroLimit) .Merge(store S, handle Via); the new store is swept and dropped
+)
+
+// Source handles of a merge.
+const (
+	viaBase = "base" // the source's plain *TemporalStore (the wrapper's output layer, if any, stays behind)
+	viaView = "view" // what reads of the source go to: its TeeingTemporalStore once it exists, else the plain store
 )
 
 // Op is one step of a history.
 type Op struct {
-	K       string   `json:"k"`
-	A       int      `json:"a,omitempty"`
-	P       int      `json:"p,omitempty"`
-	Pat     []*val.V `json:"pat,omitempty"` // read pattern: null = variable; absent = all variables
-	Iv      *Iv      `json:"iv,omitempty"`
-	T       int64    `json:"t,omitempty"`
-	Eternal bool     `json:"eternal,omitempty"`
+	K         string   `json:"k"`
+	S         int      `json:"s,omitempty"`
+	A         int      `json:"a,omitempty"`
+	P         int      `json:"p,omitempty"`
+	Pat       []*val.V `json:"pat,omitempty"` // read pattern: null = variable; absent = all variables
+	Iv        *Iv      `json:"iv,omitempty"`
+	T         int64    `json:"t,omitempty"`
+	Eternal   bool     `json:"eternal,omitempty"`
+	Via       string   `json:"via,omitempty"`        // merge, merge-fresh
+	Limit     int      `json:"limit,omitempty"`      // merge-fresh: limit of the new store, as Case.Limit
+	ZeroLimit bool     `json:"zero_limit,omitempty"` // merge-fresh: as Case.ZeroLimit
+}
+
+// Side describes the second store of a case; the fields mean what they mean in Case.
+type Side struct {
+	Limit     int  `json:"limit,omitempty"`
+	ZeroLimit bool `json:"zero_limit,omitempty"`
+	Tee       bool `json:"tee,omitempty"`
+	Split     int  `json:"split,omitempty"`
 }
 
 // Case is a history. Limit: 0 = store built without option (default limit 1000, never reached),
-// > 0 = WithMaxIntervalsPerAtom(Limit), < 0 = WithMaxIntervalsPerAtom(Limit) (documented: no limit).
-// Tee: Ops[:Split] run on the store itself, then a TeeingTemporalStore is put on top and Ops[Split:] run
-// through the wrapper (writes go to its output layer).
+// > 0 = WithMaxIntervalsPerAtom(Limit), < 0 = WithMaxIntervalsPerAtom(Limit) (documented: no limit);
+// ZeroLimit (with Limit 0) = WithMaxIntervalsPerAtom(0), which the code treats as "no limit" and the field
+// comment as "default": the two cannot be told apart by a history of this size.
+// Tee: the steps on the store among Ops[:Split] run on the store itself, then a TeeingTemporalStore is put
+// on top and the steps among Ops[Split:] run through the wrapper (writes go to its output layer).
+// Side: a second store beside the primary one, the other party of the merge steps.
 type Case struct {
-	Limit int    `json:"limit,omitempty"`
-	Tee   bool   `json:"tee,omitempty"`
-	Split int    `json:"split,omitempty"`
-	Preds []Pred `json:"preds"`
-	Atoms []Atom `json:"atoms"`
-	Ops   []Op   `json:"ops"`
+	Limit     int    `json:"limit,omitempty"`
+	ZeroLimit bool   `json:"zero_limit,omitempty"`
+	Tee       bool   `json:"tee,omitempty"`
+	Split     int    `json:"split,omitempty"`
+	Side      *Side  `json:"side,omitempty"`
+	Preds     []Pred `json:"preds"`
+	Atoms     []Atom `json:"atoms"`
+	Ops       []Op   `json:"ops"`
 }
 
 func (c Case) hash() uint64 {
@@ -205,46 +248,16 @@ type pair struct {
 	id string // keys[ai] + "@" + iv.String(), set by model.pair
 }
 
+// model holds what the stores of a case have in common: the atoms and their keys.
 type model struct {
-	c      Case
-	keys   []string       // val.AtomKey of every case atom
-	byKey  map[string]int // key -> atom index
-	layers [2][]pair      // 0: the store itself, 1: output layer of the teeing wrapper
+	c     Case
+	keys  []string       // val.AtomKey of every case atom
+	byKey map[string]int // key -> atom index
 }
 
 func (m *model) pair(ai int, iv Iv) pair { return pair{ai, iv, m.keys[ai] + "@" + iv.String()} }
 
 func (m *model) id(p pair) string { return p.id }
-
-func (m *model) holds(layer int, p pair) bool {
-	for _, q := range m.layers[layer] {
-		if q == p {
-			return true
-		}
-	}
-	return false
-}
-
-func (m *model) countOf(layer, ai int) int {
-	n := 0
-	for _, q := range m.layers[layer] {
-		if q.ai == ai {
-			n++
-		}
-	}
-	return n
-}
-
-func (m *model) containsAt(ai int, t int64) bool {
-	for l := range m.layers {
-		for _, q := range m.layers[l] {
-			if q.ai == ai && q.iv.has(t) {
-				return true
-			}
-		}
-	}
-	return false
-}
 
 // matches tells whether atom ai belongs to predicate p and agrees with the fixed positions of pat.
 func (m *model) matches(ai, p int, pat []*val.V) bool {
@@ -260,27 +273,119 @@ func (m *model) matches(ai, p int, pat []*val.V) bool {
 	return true
 }
 
+// store is one store under test together with the pairs it has to hold.
+type store struct {
+	m      *model
+	name   string
+	limit  int // as Case.Limit
+	base   *factstore.TemporalStore
+	tee    *factstore.TeeingTemporalStore
+	layers [2][]pair          // 0: the store itself, 1: output layer of the teeing wrapper
+	merged [2]map[string]bool // ids of the pairs of a layer that arrived through Merge
+}
+
+func newStore(m *model, name string, limit int, zero bool) *store {
+	s := &store{m: m, name: name, limit: limit}
+	switch {
+	case limit != 0:
+		s.base = factstore.NewTemporalStore(factstore.WithMaxIntervalsPerAtom(limit))
+	case zero:
+		s.base = factstore.NewTemporalStore(factstore.WithMaxIntervalsPerAtom(0))
+	default:
+		s.base = factstore.NewTemporalStore()
+	}
+	s.merged[0], s.merged[1] = map[string]bool{}, map[string]bool{}
+	return s
+}
+
+// reader is the store handle reads go to in the current phase.
+func (s *store) reader() factstore.ReadOnlyTemporalFactStore {
+	if s.tee != nil {
+		return s.tee
+	}
+	return s.base
+}
+
+func (s *store) writer() factstore.TemporalFactStore {
+	if s.tee != nil {
+		return s.tee
+	}
+	return s.base
+}
+
+// layer is the layer writes go to in the current phase.
+func (s *store) layer() int {
+	if s.tee != nil {
+		return 1
+	}
+	return 0
+}
+
+// layerLimit is the per-atom limit of layer l (<= 0: none that a history can reach).
+func (s *store) layerLimit(l int) int {
+	if l == 1 {
+		return 0 // the output layer of the wrapper is a default store
+	}
+	return s.limit
+}
+
+func (s *store) layerStore(l int) factstore.ReadOnlyTemporalFactStore {
+	if l == 1 {
+		return s.tee.Out
+	}
+	return s.base
+}
+
+func (s *store) holds(layer int, p pair) bool {
+	for _, q := range s.layers[layer] {
+		if q == p {
+			return true
+		}
+	}
+	return false
+}
+
+func (s *store) countOf(layer, ai int) int {
+	n := 0
+	for _, q := range s.layers[layer] {
+		if q.ai == ai {
+			n++
+		}
+	}
+	return n
+}
+
+func (s *store) containsAt(ai int, t int64) bool {
+	for l := range s.layers {
+		for _, q := range s.layers[l] {
+			if q.ai == ai && q.iv.has(t) {
+				return true
+			}
+		}
+	}
+	return false
+}
+
 // expected returns, for every pair satisfying keep, the allowed multiplicity range in an answer.
-func (m *model) expected(keep func(pair) bool) (lo, hi map[string]int) {
+func (s *store) expected(keep func(pair) bool) (lo, hi map[string]int) {
 	lo, hi = map[string]int{}, map[string]int{}
-	for l := range m.layers {
-		for _, q := range m.layers[l] {
+	for l := range s.layers {
+		for _, q := range s.layers[l] {
 			if keep(q) {
-				id := m.id(q)
-				lo[id] = 1
-				hi[id]++
+				lo[q.id] = 1
+				hi[q.id]++
 			}
 		}
 	}
 	return lo, hi
 }
 
-// probes returns the end points of the model's intervals for predicate p (all predicates if p < 0), their
+// probes returns the end points of the store's intervals for predicate p (all predicates if p < 0), their
 // two neighbours, and 0, sorted and without repetition.
-func (m *model) probes(p int, extra ...pair) []int64 {
+func (s *store) probes(p int, extra ...pair) []int64 {
 	set := map[int64]bool{0: true}
 	add := func(q pair) {
-		if p >= 0 && m.c.Atoms[q.ai].P != p {
+		if p >= 0 && s.m.c.Atoms[q.ai].P != p {
 			return
 		}
 		if !q.iv.LoInf {
@@ -290,8 +395,8 @@ func (m *model) probes(p int, extra ...pair) []int64 {
 			set[q.iv.Hi-1], set[q.iv.Hi], set[q.iv.Hi+1] = true, true, true
 		}
 	}
-	for l := range m.layers {
-		for _, q := range m.layers[l] {
+	for l := range s.layers {
+		for _, q := range s.layers[l] {
 			add(q)
 		}
 	}
@@ -308,6 +413,21 @@ func (m *model) probes(p int, extra ...pair) []int64 {
 	return res
 }
 
+func (s *store) dump() []string {
+	var res []string
+	for l := range s.layers {
+		for _, q := range s.layers[l] {
+			id := q.id
+			if l == 1 {
+				id += " (output layer)"
+			}
+			res = append(res, id)
+		}
+	}
+	sort.Strings(res)
+	return res
+}
+
 type verdict struct {
 	nontrivial bool
 	labels     []string
@@ -319,8 +439,8 @@ type checker struct {
 	c      Case
 	m      *model
 	atoms  []ast.Atom
-	base   *factstore.TemporalStore
-	tee    *factstore.TeeingTemporalStore
+	stores [2]*store // the primary store and, if the case has one, the side store
+	cur    *store    // the store the current step works on
 	labels map[string]bool
 	step   int
 }
@@ -336,21 +456,32 @@ func (k *checker) describe(i int) string {
 		return "-"
 	}
 	op := k.c.Ops[i]
+	on := ""
+	if op.S == 1 {
+		on = " [side store]"
+	}
 	switch op.K {
 	case opAdd:
-		return fmt.Sprintf("add %s %s", k.m.keys[op.A], op.Iv)
+		return fmt.Sprintf("add %s %s", k.m.keys[op.A], op.Iv) + on
 	case opContains:
-		return fmt.Sprintf("contains %s at %d", k.m.keys[op.A], op.T)
+		return fmt.Sprintf("contains %s at %d", k.m.keys[op.A], op.T) + on
 	case opAt:
-		return fmt.Sprintf("at %d of %s%s", op.T, k.c.Preds[op.P].Sym, patString(op.Pat))
+		return fmt.Sprintf("at %d of %s%s", op.T, k.c.Preds[op.P].Sym, patString(op.Pat)) + on
 	case opDuring:
-		return fmt.Sprintf("during %s of %s%s", op.Iv, k.c.Preds[op.P].Sym, patString(op.Pat))
+		return fmt.Sprintf("during %s of %s%s", op.Iv, k.c.Preds[op.P].Sym, patString(op.Pat)) + on
 	case opAll:
-		return fmt.Sprintf("all of %s%s", k.c.Preds[op.P].Sym, patString(op.Pat))
+		return fmt.Sprintf("all of %s%s", k.c.Preds[op.P].Sym, patString(op.Pat)) + on
 	case opCoalesce:
-		return fmt.Sprintf("coalesce %s/%d", k.c.Preds[op.P].Sym, k.c.Preds[op.P].Arity)
+		return fmt.Sprintf("coalesce %s/%d", k.c.Preds[op.P].Sym, k.c.Preds[op.P].Arity) + on
+	case opMerge:
+		if op.S == 1 {
+			return fmt.Sprintf("merge the primary store (%s) into the side store", op.Via)
+		}
+		return fmt.Sprintf("merge the side store (%s) into the primary store", op.Via)
+	case opFresh:
+		return fmt.Sprintf("merge the store (%s) into a fresh store with limit %d", op.Via, op.Limit) + on
 	}
-	return op.K
+	return op.K + on
 }
 
 func patString(pat []*val.V) string {
@@ -363,28 +494,6 @@ func patString(pat []*val.V) string {
 		}
 	}
 	return "(" + strings.Join(parts, ",") + ")"
-}
-
-// reader is the store handle reads go to in the current phase.
-func (k *checker) reader() factstore.ReadOnlyTemporalFactStore {
-	if k.tee != nil {
-		return k.tee
-	}
-	return k.base
-}
-
-func (k *checker) writer() factstore.TemporalFactStore {
-	if k.tee != nil {
-		return k.tee
-	}
-	return k.base
-}
-
-func (k *checker) layer() int {
-	if k.tee != nil {
-		return 1
-	}
-	return 0
 }
 
 // collect runs a read and returns the multiset of answered pairs by model id.
@@ -431,96 +540,79 @@ func (k *checker) compare(what string, got, lo, hi map[string]int) {
 		}
 	}
 	if missing != nil || extra != nil || twice != nil {
-		k.failf("%s: missing %v, not stored/not matching %v, more than once %v; stored pairs: %v", what, missing, extra, twice, k.dump())
+		k.failf("%s on the %s store: missing %v, not stored/not matching %v, more than once %v; stored pairs: %v", what, k.cur.name, missing, extra, twice, k.cur.dump())
 	}
-}
-
-func (k *checker) dump() []string {
-	var res []string
-	for l := range k.m.layers {
-		for _, q := range k.m.layers[l] {
-			s := k.m.id(q)
-			if l == 1 {
-				s += " (output layer)"
-			}
-			res = append(res, s)
-		}
-	}
-	sort.Strings(res)
-	return res
 }
 
 func (k *checker) checkAt(p int, pat []*val.V, t int64) {
 	q := k.c.query(p, pat)
 	got := k.collect("GetFactsAt", func(fn func(factstore.TemporalFact) error) error {
-		return k.reader().GetFactsAt(q, instant(t), fn)
+		return k.cur.reader().GetFactsAt(q, instant(t), fn)
 	})
-	lo, hi := k.m.expected(func(x pair) bool { return k.m.matches(x.ai, p, pat) && x.iv.has(t) })
+	lo, hi := k.cur.expected(func(x pair) bool { return k.m.matches(x.ai, p, pat) && x.iv.has(t) })
 	k.compare(fmt.Sprintf("GetFactsAt(%s%s, %d)", k.c.Preds[p].Sym, patString(pat), t), got, lo, hi)
 }
 
 func (k *checker) checkDuring(p int, pat []*val.V, r Iv) {
 	q := k.c.query(p, pat)
 	got := k.collect("GetFactsDuring", func(fn func(factstore.TemporalFact) error) error {
-		return k.reader().GetFactsDuring(q, r.build(), fn)
+		return k.cur.reader().GetFactsDuring(q, r.build(), fn)
 	})
-	lo, hi := k.m.expected(func(x pair) bool { return k.m.matches(x.ai, p, pat) && x.iv.meets(r) })
+	lo, hi := k.cur.expected(func(x pair) bool { return k.m.matches(x.ai, p, pat) && x.iv.meets(r) })
 	k.compare(fmt.Sprintf("GetFactsDuring(%s%s, %s)", k.c.Preds[p].Sym, patString(pat), r), got, lo, hi)
 }
 
 func (k *checker) checkAll(p int, pat []*val.V) {
 	q := k.c.query(p, pat)
 	got := k.collect("GetAllFacts", func(fn func(factstore.TemporalFact) error) error {
-		return k.reader().GetAllFacts(q, fn)
+		return k.cur.reader().GetAllFacts(q, fn)
 	})
-	lo, hi := k.m.expected(func(x pair) bool { return k.m.matches(x.ai, p, pat) })
+	lo, hi := k.cur.expected(func(x pair) bool { return k.m.matches(x.ai, p, pat) })
 	k.compare(fmt.Sprintf("GetAllFacts(%s%s)", k.c.Preds[p].Sym, patString(pat)), got, lo, hi)
 }
 
 func (k *checker) checkScan() {
 	got := k.collect("GetAllFacts", func(fn func(factstore.TemporalFact) error) error {
-		return k.reader().GetAllFacts(ast.Atom{}, fn)
+		return k.cur.reader().GetAllFacts(ast.Atom{}, fn)
 	})
-	lo, hi := k.m.expected(func(pair) bool { return true })
+	lo, hi := k.cur.expected(func(pair) bool { return true })
 	k.compare("GetAllFacts(no predicate)", got, lo, hi)
 }
 
 func (k *checker) checkContains(ai int, t int64) {
-	got := k.reader().ContainsAt(k.atoms[ai], instant(t))
-	if want := k.m.containsAt(ai, t); got != want {
-		k.failf("ContainsAt(%s, %d) = %v, the stored intervals say %v; stored pairs: %v", k.m.keys[ai], t, got, want, k.dump())
+	got := k.cur.reader().ContainsAt(k.atoms[ai], instant(t))
+	if want := k.cur.containsAt(ai, t); got != want {
+		k.failf("ContainsAt(%s, %d) on the %s store = %v, the stored intervals say %v; stored pairs: %v", k.m.keys[ai], t, k.cur.name, got, want, k.cur.dump())
 	}
 }
 
 func (k *checker) checkCount() {
-	got := k.reader().EstimateFactCount()
-	_, hi := k.m.expected(func(pair) bool { return true })
+	got := k.cur.reader().EstimateFactCount()
+	_, hi := k.cur.expected(func(pair) bool { return true })
 	min, max := len(hi), 0
 	for _, n := range hi {
 		max += n
 	}
 	if got < min || got > max {
-		k.failf("EstimateFactCount() = %d, but %d pairs are stored (%d counting both layers); stored pairs: %v", got, min, max, k.dump())
+		k.failf("EstimateFactCount() of the %s store = %d, but %d pairs are stored (%d counting both layers); stored pairs: %v", k.cur.name, got, min, max, k.cur.dump())
 	}
 }
 
 func (k *checker) doAdd(op Op) {
+	st := k.cur
 	iv := *op.Iv
-	l := k.layer()
-	limit := k.c.Limit
-	if l == 1 {
-		limit = 0 // the output layer of the wrapper is a default store
-	}
+	l := st.layer()
+	limit := st.layerLimit(l)
 	var ok bool
 	var err error
 	if op.Eternal && iv.LoInf && iv.HiInf {
-		ok, err = k.writer().AddEternal(k.atoms[op.A])
+		ok, err = st.writer().AddEternal(k.atoms[op.A])
 	} else {
-		ok, err = k.writer().Add(k.atoms[op.A], iv.build())
+		ok, err = st.writer().Add(k.atoms[op.A], iv.build())
 	}
 	p := k.m.pair(op.A, iv)
-	dup := k.m.holds(l, p)
-	full := limit > 0 && k.m.countOf(l, op.A) >= limit
+	dup := st.holds(l, p)
+	full := limit > 0 && st.countOf(l, op.A) >= limit
 	switch {
 	case iv.invalid():
 		k.label("add-invalid")
@@ -541,26 +633,73 @@ func (k *checker) doAdd(op Op) {
 	case dup:
 		k.label("add-dup")
 		if ok || err != nil {
-			k.failf("Add of an exact duplicate answered (%v, %v), want (false, nil); stored pairs: %v", ok, err, k.dump())
+			k.failf("Add of an exact duplicate answered (%v, %v), want (false, nil); stored pairs: %v", ok, err, st.dump())
 		}
 	default:
 		if !ok || err != nil {
-			k.failf("Add of a new pair answered (%v, %v), want (true, nil); stored pairs: %v", ok, err, k.dump())
+			k.failf("Add of a new pair answered (%v, %v), want (true, nil); stored pairs: %v", ok, err, st.dump())
 		}
-		k.m.layers[l] = append(k.m.layers[l], p)
+		st.layers[l] = append(st.layers[l], p)
 	}
 }
 
+// scanLayer reads layer l of st with a full scan (of predicate p, of everything if p < 0): every answer must
+// be a valid closed interval of an atom of the history (of the predicate), no pair may come twice. The
+// pairs are returned in the order of their ids.
+func (k *checker) scanLayer(st *store, l, p int, when string) []pair {
+	q := ast.Atom{}
+	if p >= 0 {
+		q = ast.NewQuery(k.c.Preds[p].sym())
+	}
+	var scanned []pair
+	seen := map[string]bool{}
+	err := st.layerStore(l).GetAllFacts(q, func(tf factstore.TemporalFact) error {
+		key := val.AtomKey(tf.Atom)
+		ai, known := k.m.byKey[key]
+		if !known || p >= 0 && k.c.Atoms[ai].P != p {
+			k.failf("%s the scan yields %s, which was never added there", when, key)
+		}
+		iv, e := fromInterval(tf.Interval)
+		if e != nil {
+			k.failf("%s %s carries an interval that is no closed interval: %v", when, key, e)
+		}
+		if iv.invalid() {
+			k.failf("%s %s carries the empty interval %s", when, key, iv)
+		}
+		x := k.m.pair(ai, iv)
+		if seen[x.id] {
+			k.failf("%s the scan yields %s twice", when, x.id)
+		}
+		seen[x.id] = true
+		scanned = append(scanned, x)
+		return nil
+	})
+	if err != nil {
+		k.failf("GetAllFacts returned an error although the callback never fails: %v", err)
+	}
+	sort.Slice(scanned, func(i, j int) bool { return scanned[i].id < scanned[j].id })
+	return scanned
+}
+
 func (k *checker) doCoalesce(p int) {
-	l := k.layer()
+	st := k.cur
+	l := st.layer()
 	// classify what the coalescing has to do
 	var mine []pair
-	for _, q := range k.m.layers[l] {
+	for _, q := range st.layers[l] {
 		if k.c.Atoms[q.ai].P == p {
 			mine = append(mine, q)
 		}
 	}
 	for i, a := range mine {
+		if st.merged[l][a.id] {
+			k.label("coalesce-after-merge")
+			for _, b := range mine {
+				if a.ai == b.ai && a.id != b.id && a.iv.finite() != b.iv.finite() {
+					k.label("coalesce-after-merge-finite+unbounded")
+				}
+			}
+		}
 		for j, b := range mine {
 			if i == j || a.ai != b.ai || !a.iv.finite() || !b.iv.finite() {
 				continue
@@ -576,7 +715,7 @@ func (k *checker) doCoalesce(p int) {
 			}
 		}
 	}
-	before := k.m.probes(p)
+	before := st.probes(p)
 	var members []int
 	for ai, a := range k.c.Atoms {
 		if a.P == p {
@@ -588,40 +727,11 @@ func (k *checker) doCoalesce(p int) {
 			k.checkContains(ai, t) // the store agrees with the model before ...
 		}
 	}
-	if err := k.writer().Coalesce(k.c.Preds[p].sym()); err != nil {
+	if err := st.writer().Coalesce(k.c.Preds[p].sym()); err != nil {
 		k.failf("Coalesce returned %v", err)
 	}
 	// scan the layer that was coalesced
-	var target factstore.ReadOnlyTemporalFactStore = k.base
-	if k.tee != nil {
-		target = k.tee.Out
-	}
-	var scanned []pair
-	seen := map[string]bool{}
-	err := target.GetAllFacts(ast.NewQuery(k.c.Preds[p].sym()), func(tf factstore.TemporalFact) error {
-		key := val.AtomKey(tf.Atom)
-		ai, known := k.m.byKey[key]
-		if !known || k.c.Atoms[ai].P != p {
-			k.failf("after Coalesce the scan of the predicate yields %s, which was never added to it", key)
-		}
-		iv, e := fromInterval(tf.Interval)
-		if e != nil {
-			k.failf("after Coalesce %s carries an interval that is no closed interval: %v", key, e)
-		}
-		if iv.invalid() {
-			k.failf("after Coalesce %s carries the empty interval %s", key, iv)
-		}
-		q := k.m.pair(ai, iv)
-		if seen[k.m.id(q)] {
-			k.failf("after Coalesce the scan yields %s twice", k.m.id(q))
-		}
-		seen[k.m.id(q)] = true
-		scanned = append(scanned, q)
-		return nil
-	})
-	if err != nil {
-		k.failf("GetAllFacts returned an error although the callback never fails: %v", err)
-	}
+	scanned := k.scanLayer(st, l, p, "after Coalesce")
 	if len(scanned) < len(mine) {
 		k.label("coalesce-merged")
 	}
@@ -632,45 +742,206 @@ func (k *checker) doCoalesce(p int) {
 				continue
 			}
 			if a.iv.Lo <= b.iv.Lo && !(a.iv.Hi < b.iv.Lo-1) {
-				k.failf("after Coalesce %s holds %s and %s, which overlap or are adjacent; before: %v", k.m.keys[a.ai], a.iv, b.iv, k.dump())
+				k.failf("after Coalesce %s holds %s and %s, which overlap or are adjacent; before: %v", k.m.keys[a.ai], a.iv, b.iv, st.dump())
 			}
 		}
 	}
 	// the instants at which each atom holds are unchanged: compare the old and the new pairs, and the
 	// store's own membership answer, at every end point (old and new) and its neighbours.
-	after := k.m.probes(p, scanned...)
-	old := k.m.layers[l]
+	after := st.probes(p, scanned...)
+	old := st.layers[l]
 	var kept []pair
 	for _, q := range old {
 		if k.c.Atoms[q.ai].P != p {
 			kept = append(kept, q)
 		}
 	}
-	oldDump := k.dump()
+	oldDump := st.dump()
 	want := map[[2]int64]bool{}
 	for _, ai := range members {
 		for _, t := range after {
-			want[[2]int64{int64(ai), t}] = k.m.containsAt(ai, t)
+			want[[2]int64{int64(ai), t}] = st.containsAt(ai, t)
 		}
 	}
-	k.m.layers[l] = append(kept, scanned...)
+	st.layers[l] = append(kept, scanned...)
 	for _, ai := range members {
 		for _, t := range after {
 			w := want[[2]int64{int64(ai), t}]
-			if got := k.m.containsAt(ai, t); got != w {
-				k.failf("Coalesce changed whether %s holds at %d: before %v, after %v; before: %v; after: %v", k.m.keys[ai], t, w, got, oldDump, k.dump())
+			if got := st.containsAt(ai, t); got != w {
+				k.failf("Coalesce changed whether %s holds at %d: before %v, after %v; before: %v; after: %v", k.m.keys[ai], t, w, got, oldDump, st.dump())
 			}
-			if got := k.reader().ContainsAt(k.atoms[ai], instant(t)); got != w {
-				k.failf("after Coalesce ContainsAt(%s, %d) = %v, before it was %v; before: %v; after: %v", k.m.keys[ai], t, got, w, oldDump, k.dump())
+			if got := st.reader().ContainsAt(k.atoms[ai], instant(t)); got != w {
+				k.failf("after Coalesce ContainsAt(%s, %d) = %v, before it was %v; before: %v; after: %v", k.m.keys[ai], t, got, w, oldDump, st.dump())
 			}
 		}
 	}
 	k.checkCount()
 }
 
+// doMerge merges src (through the handle named by via) into dst and judges the outcome; tag prefixes the
+// labels. Merge is a sequence of insertions into the layer writes of dst go to.
+func (k *checker) doMerge(dst, src *store, via, tag string) {
+	saved := k.cur
+	defer func() { k.cur = saved }()
+	k.label(tag)
+	var handle factstore.ReadOnlyTemporalFactStore = src.base
+	srcLayers := 1
+	if via == viaView && src.tee != nil {
+		handle, srcLayers = src.tee, 2
+		k.label(tag + "-source-tee")
+	} else {
+		k.label(tag + "-source-plain")
+		if src.limit > 0 {
+			k.label(tag + "-source-plain-with-limit")
+		}
+	}
+	// what the source offers: its distinct pairs, and how often each comes (a pair held by both layers of a
+	// teeing source is offered twice)
+	times := map[string]int{}
+	var offer []pair
+	for l := 0; l < srcLayers; l++ {
+		for _, q := range src.layers[l] {
+			if times[q.id] == 0 {
+				offer = append(offer, q)
+			}
+			times[q.id]++
+		}
+	}
+	if len(offer) == 0 {
+		k.label(tag + "-empty-source")
+	}
+	l := dst.layer()
+	limit := dst.layerLimit(l)
+	if l == 1 {
+		k.label(tag + "-into-tee")
+	}
+	old := map[string]bool{}
+	have, fresh, offered := map[int]int{}, map[int]int{}, map[int]int{}
+	for _, q := range dst.layers[l] {
+		old[q.id] = true
+		have[q.ai]++
+	}
+	union := map[string]bool{}
+	for id := range old {
+		union[id] = true
+	}
+	for _, q := range offer {
+		offered[q.ai] += times[q.id]
+		union[q.id] = true
+		if old[q.id] {
+			k.label(tag + "-offers-duplicate")
+			continue
+		}
+		fresh[q.ai]++
+		switch {
+		case q.iv.LoInf && q.iv.HiInf:
+			k.label(tag + "-adds-eternal")
+		case q.iv.LoInf || q.iv.HiInf:
+			k.label(tag + "-adds-half-unbounded")
+		default:
+			k.label(tag + "-adds-finite")
+		}
+	}
+	// must: the union gives some atom more than `limit` intervals. may: some atom ends exactly at its limit
+	// and a pair it holds by then is offered (again) - a duplicate at the limit, where either rule may fire.
+	must, may := -1, false
+	if limit > 0 {
+		k.label(tag + "-target-with-limit")
+		for ai := range k.c.Atoms {
+			switch n := have[ai] + fresh[ai]; {
+			case n > limit && fresh[ai] > 0:
+				if must < 0 {
+					must = ai
+				}
+			case n >= limit && offered[ai] > fresh[ai]:
+				may = true
+			}
+		}
+	}
+	err := dst.writer().Merge(handle)
+	switch {
+	case err == nil && must >= 0:
+		k.failf("Merge into the %s store returned nil although %s holds %d intervals there, the source offers %d further ones and the limit is %d; target: %v; offered: %v",
+			dst.name, k.m.keys[must], have[must], fresh[must], limit, dst.dump(), ids(offer))
+	case err != nil && must < 0 && !may:
+		k.failf("Merge into the %s store returned %v although the union leaves every atom within the limit %d; target: %v; offered: %v", dst.name, err, limit, dst.dump(), ids(offer))
+	}
+	switch {
+	case err != nil && must >= 0:
+		k.label(tag + "-refused-at-limit")
+	case err != nil:
+		k.label(tag + "-refused-duplicate-at-limit")
+	case may:
+		k.label(tag + "-accepted-duplicate-at-limit")
+	}
+	// what the target layer holds now
+	scanned := k.scanLayer(dst, l, -1, "after Merge")
+	got := map[string]bool{}
+	count := map[int]int{}
+	var extra, missing []string
+	for _, q := range scanned {
+		got[q.id] = true
+		count[q.ai]++
+		if !union[q.id] {
+			extra = append(extra, q.id)
+		}
+	}
+	for _, q := range dst.layers[l] {
+		if !got[q.id] {
+			missing = append(missing, q.id)
+		}
+	}
+	if err == nil {
+		for _, q := range offer {
+			if !got[q.id] && !old[q.id] {
+				missing = append(missing, q.id)
+			}
+		}
+	}
+	if extra != nil || missing != nil {
+		sort.Strings(missing)
+		k.failf("after Merge (result %v) the %s store lacks %v and holds %v that neither it nor the source held; before: %v; offered: %v", err, dst.name, missing, extra, dst.dump(), ids(offer))
+	}
+	if limit > 0 {
+		for ai := range k.c.Atoms {
+			if count[ai] > limit && count[ai] > have[ai] {
+				k.failf("after Merge (result %v) %s holds %d intervals in the %s store, the limit is %d; before: %v; offered: %v", err, k.m.keys[ai], count[ai], dst.name, limit, dst.dump(), ids(offer))
+			}
+		}
+	}
+	for _, q := range scanned {
+		if !old[q.id] {
+			dst.merged[l][q.id] = true
+		}
+	}
+	if err != nil && len(scanned) > len(dst.layers[l]) {
+		k.label(tag + "-refused-after-a-prefix")
+	}
+	dst.layers[l] = scanned
+	if n := dst.layerStore(l).EstimateFactCount(); n != len(scanned) {
+		k.failf("after Merge (result %v) EstimateFactCount() of the %s store = %d, but it holds %d pairs: %v", err, dst.name, n, len(scanned), dst.dump())
+	}
+	// the answers of the target are those of the union; the source is what it was
+	k.cur = dst
+	k.doSweep()
+	k.cur = src
+	k.checkScan()
+	k.checkCount()
+}
+
+func ids(ps []pair) []string {
+	res := make([]string, 0, len(ps))
+	for _, q := range ps {
+		res = append(res, q.id)
+	}
+	sort.Strings(res)
+	return res
+}
+
 func (k *checker) doSweep() {
+	st := k.cur
 	for p := range k.c.Preds {
-		ts := k.m.probes(p)
+		ts := st.probes(p)
 		for i, t := range ts {
 			k.checkAt(p, nil, t)
 			switch {
@@ -695,17 +966,18 @@ func (k *checker) doSweep() {
 	k.checkCount()
 }
 
-// rich tells whether a read that reaches the atoms selected by sel meets a tree worth the name: some
-// selected atom holds >= 6 intervals in one layer (rotations happened) among them two with the same start or
-// an unbounded one.
+// rich tells whether a read of the current store that reaches the atoms selected by sel meets a tree worth
+// the name: some selected atom holds >= 6 intervals in one layer (rotations happened) among them two with
+// the same start or an unbounded one.
 func (k *checker) rich(sel func(ai int) bool) bool {
-	for l := range k.m.layers {
+	st := k.cur
+	for l := range st.layers {
 		for ai := range k.c.Atoms {
-			if !sel(ai) || k.m.countOf(l, ai) < 6 {
+			if !sel(ai) || st.countOf(l, ai) < 6 {
 				continue
 			}
 			starts := map[string]bool{}
-			for _, q := range k.m.layers[l] {
+			for _, q := range st.layers[l] {
 				if q.ai != ai {
 					continue
 				}
@@ -724,9 +996,10 @@ func (k *checker) rich(sel func(ai int) bool) bool {
 }
 
 func (k *checker) noteShape() {
-	for l := range k.m.layers {
+	st := k.cur
+	for l := range st.layers {
 		for ai := range k.c.Atoms {
-			n := k.m.countOf(l, ai)
+			n := st.countOf(l, ai)
 			if n >= 6 {
 				k.label("tree>=6")
 			}
@@ -734,7 +1007,7 @@ func (k *checker) noteShape() {
 				k.label("tree>=12")
 			}
 		}
-		for i, a := range k.m.layers[l] {
+		for i, a := range st.layers[l] {
 			switch {
 			case a.iv.LoInf && a.iv.HiInf:
 				k.label("stored-eternal")
@@ -746,7 +1019,7 @@ func (k *checker) noteShape() {
 			if !a.iv.LoInf && (a.iv.Lo > 1<<40 || a.iv.Lo < -(1<<40)) || !a.iv.HiInf && (a.iv.Hi > 1<<40 || a.iv.Hi < -(1<<40)) {
 				k.label("stored-far-from-zero")
 			}
-			for j, b := range k.m.layers[l] {
+			for j, b := range st.layers[l] {
 				if i >= j || a.ai != b.ai {
 					continue
 				}
@@ -766,7 +1039,7 @@ func (k *checker) noteShape() {
 	}
 }
 
-// check replays the history against a fresh store and the model.
+// check replays the history against fresh stores and the model.
 func check(run *stats.Run, f stats.Failer, c Case) verdict {
 	k := &checker{run: run, f: f, c: c, labels: map[string]bool{}, step: -1}
 	k.m = &model{c: c, byKey: map[string]int{}}
@@ -780,13 +1053,15 @@ func check(run *stats.Run, f stats.Failer, c Case) verdict {
 		k.m.keys = append(k.m.keys, key)
 		k.m.byKey[key] = i
 	}
-	switch {
-	case c.Limit == 0:
-		k.base = factstore.NewTemporalStore()
-	default:
-		k.base = factstore.NewTemporalStore(factstore.WithMaxIntervalsPerAtom(c.Limit))
-		if c.Limit > 0 {
-			k.label("limit")
+	k.stores[0] = newStore(k.m, "primary", c.Limit, c.ZeroLimit)
+	if c.Limit > 0 {
+		k.label("limit")
+	}
+	if c.Side != nil {
+		k.stores[1] = newStore(k.m, "side", c.Side.Limit, c.Side.ZeroLimit)
+		k.label("side-store")
+		if c.Side.Limit > 0 {
+			k.label("side-store-limit")
 		}
 	}
 	predAtoms := map[int]int{}
@@ -802,9 +1077,17 @@ func check(run *stats.Run, f stats.Failer, c Case) verdict {
 	for i, op := range c.Ops {
 		k.step = i
 		if c.Tee && i == c.Split {
-			k.tee = factstore.NewTeeingTemporalStore(k.base)
+			k.stores[0].tee = factstore.NewTeeingTemporalStore(k.stores[0].base)
 			k.label("tee")
 		}
+		if c.Side != nil && c.Side.Tee && i == c.Side.Split {
+			k.stores[1].tee = factstore.NewTeeingTemporalStore(k.stores[1].base)
+			k.label("side-store-tee")
+		}
+		if op.S < 0 || op.S > 1 || k.stores[op.S] == nil {
+			run.Failf(f, "malformed case: step %d works on store %d, which the case does not have", i, op.S)
+		}
+		k.cur = k.stores[op.S]
 		switch op.K {
 		case opAdd:
 			k.doAdd(op)
@@ -835,10 +1118,19 @@ func check(run *stats.Run, f stats.Failer, c Case) verdict {
 			k.label("sweep")
 			k.doSweep()
 			nontrivial = nontrivial || k.rich(func(int) bool { return true })
+		case opMerge:
+			other := k.stores[1-op.S]
+			if other == nil {
+				run.Failf(f, "malformed case: step %d merges a side store the case does not have", i)
+			}
+			k.doMerge(k.cur, other, op.Via, "merge")
+			nontrivial = nontrivial || k.rich(func(int) bool { return true }) // the merge ends with a sweep of its target
+		case opFresh:
+			k.doMerge(newStore(k.m, "fresh", op.Limit, op.ZeroLimit), k.cur, op.Via, "merge-fresh")
 		default:
 			run.Failf(f, "malformed case: unknown operation %q", op.K)
 		}
-		if op.K == opAdd || op.K == opCoalesce {
+		if op.K == opAdd || op.K == opCoalesce || op.K == opMerge {
 			k.noteShape()
 		}
 		if op.Pat != nil {
